@@ -207,6 +207,20 @@ func checkFilter(s spec, corr bool, family string) {
 			rep.Violate("C14:roundtrip:answers", "a filter rebuilt from its serialisation answers an any-of query differently", s.replay(map[string]interface{}{"via": via, "queries": hexItems(qs)}))
 		}
 	}
+	// --- filter hash and header of this filter (the empty filter included: SHA256d of the single byte 00)
+	{
+		prev := chainhash.Hash{}
+		copy(prev[:], sha256d(fb))
+		fh, e1 := builder.GetFilterHash(f)
+		fhd, e2 := builder.MakeHeaderForFilter(f, prev)
+		wantH := sha256d(wantN)
+		wantHdr := sha256d(append(append([]byte{}, wantH...), prev[:]...))
+		rep.Count("hash", fmt.Sprintf("h%d/%x", n, fb), true)
+		if e1 != nil || e2 != nil || !bytes.Equal(fh[:], wantH) || !bytes.Equal(fhd[:], wantHdr) {
+			rep.Violate("C14:hash:header", "GetFilterHash / MakeHeaderForFilter differ from SHA256d(CompactSize(N)||bytes) / SHA256d(hash||prev)",
+				s.replay(map[string]interface{}{"filter": vh.Hex(trunc(fb, 64)), "prev": vh.Hex(prev[:]), "impl_hash": vh.Hex(fh[:]), "impl_header": vh.Hex(fhd[:])}))
+		}
+	}
 	if corr {
 		cases.Add(fmt.Sprintf("Build %d %d %s %s 0 %d %s", s.P, s.M, vh.CoqBytes(s.Key[:]), gref.CoqItems(s.Data), f.N(), vh.CoqBytes(fb)),
 			map[string]interface{}{"op": "BuildGCSFilter", "spec": s.replay(nil), "impl_N": f.N(), "impl_bytes": vh.Hex(fb)})
@@ -369,6 +383,107 @@ func familyBig(rng *vh.RNG) {
 	}
 }
 
+// N across the CompactSize boundaries (0xfc/0xfd, 0xffff/0x10000, 2^32-1) through FromBytes, then
+// NBytes / PBytes / NPBytes against the stated concatenations, FromNBytes back, and parsing the NP form
+func familySerN(rng *vh.RNG) {
+	r := rng.Fork("serN")
+	ns := []uint32{0, 1, 2, 0x7f, 0x80, 0xfb, 0xfc, 0xfd, 0xfe, 0xff, 0x100, 0x101, 0xfffe, 0xffff, 0x10000, 0x10001, 0xffffff, 0x1000000, 0x7fffffff, 0x80000000, 0xfffffffe, 0xffffffff}
+	for i := 0; i < cfg.Scale(10, 60); i++ {
+		ns = append(ns, r.U32()>>uint(r.Intn(32)))
+	}
+	for i, n := range ns {
+		p := uint8(r.Intn(33))
+		m := vh.Pick(r, []uint64{784931, 1, 0, 1 << 32, 1<<40 + 7, r.U64()})
+		body := r.Bytes(r.Intn(12))
+		if i%5 == 0 {
+			body = nil
+		}
+		f, err := gcs.FromBytes(n, p, m, body)
+		if err != nil {
+			rep.Violate("C14:deser:frombytes", "FromBytes accepts/rejects differently from P <= 32", map[string]interface{}{"N": n, "P": p, "impl_class": errClass(err)})
+			continue
+		}
+		fb, _ := f.Bytes()
+		nb, e1 := f.NBytes()
+		pb, e2 := f.PBytes()
+		npb, e3 := f.NPBytes()
+		vi := gref.VarInt(uint64(n))
+		wantN := append(append([]byte{}, vi...), body...)
+		wantP := append([]byte{p}, body...)
+		wantNP := append(append(append([]byte{}, vi...), p), body...)
+		rep.Count("serN", fmt.Sprintf("n%d/%d/%x", n, p, body), n >= 0xfd)
+		rep.Histogram[fmt.Sprintf("serN:varint%d", len(vi))]++
+		replay := map[string]interface{}{"call": "FromBytes(N, P, M, bytes) then N()/P()/Bytes()/NBytes()/PBytes()/NPBytes(), FromNBytes(P, M, NBytes())", "N": n, "P": p, "M": u(m), "bytes": vh.Hex(body)}
+		if f.N() != n || f.P() != p || !bytes.Equal(fb, body) || gcs.VerifModulusNP(f) != gref.Modulus(uint64(n), m) {
+			rep.Violate("C14:deser:fields", "FromBytes returned wrong N / P / bytes / modulus", replay)
+		}
+		if e1 != nil || e2 != nil || e3 != nil || !bytes.Equal(nb, wantN) || !bytes.Equal(pb, wantP) || !bytes.Equal(npb, wantNP) {
+			replay["NBytes"], replay["PBytes"], replay["NPBytes"] = vh.Hex(nb), vh.Hex(pb), vh.Hex(npb)
+			rep.Violate("C14:ser:concat", "NBytes / PBytes / NPBytes is not CompactSize(N) / P / both followed by the filter bytes", replay)
+			continue
+		}
+		g, err := gcs.FromNBytes(p, m, nb)
+		if err != nil {
+			replay["error"] = err.Error()
+			rep.Violate("C14:roundtrip:error", "FromNBytes rejected a serialisation produced by the library", replay)
+			continue
+		}
+		gb, _ := g.Bytes()
+		if g.N() != n || g.P() != p || !bytes.Equal(gb, body) || gcs.VerifModulusNP(g) != gcs.VerifModulusNP(f) {
+			replay["rebuilt_N"] = g.N()
+			rep.Violate("C14:roundtrip:fields", "a filter rebuilt from its serialisation has different N / P / bytes / modulus", replay)
+		}
+		// the NP form parses back (independent CompactSize reader): N, then P, then the bytes
+		if cls, pn, rest := refReadVarInt(npb); cls != 0 || pn != uint64(n) || len(rest) < 1 || rest[0] != p || !bytes.Equal(rest[1:], body) {
+			rep.Violate("C14:ser:concat", "NPBytes does not parse back into (N, P, bytes)", replay)
+		}
+		if !cfg.Search {
+			cases.Add(fmt.Sprintf("Ser %d %d %d %s %s %s %s", n, p, m, vh.CoqBytes(body), vh.CoqBytes(nb), vh.CoqBytes(pb), vh.CoqBytes(npb)),
+				map[string]interface{}{"op": "NBytes/PBytes/NPBytes", "N": n, "P": p, "filter": vh.Hex(body), "impl_nbytes": vh.Hex(nb), "impl_pbytes": vh.Hex(pb), "impl_npbytes": vh.Hex(npb)})
+			cases.Add(fmt.Sprintf("FromN %d %d %s 0 %d %d %s", p, m, vh.CoqBytes(nb), g.N(), g.P(), vh.CoqBytes(gb)),
+				map[string]interface{}{"op": "FromNBytes(NBytes())", "P": p, "nbytes": vh.Hex(nb)})
+		}
+	}
+}
+
+// long unary runs (quotients beyond 2^8 and 2^16) through the bit-exactness monitor
+func familyLongRun(rng *vh.RNG) {
+	r := rng.Fork("longrun")
+	type lc struct {
+		p uint8
+		q uint64
+	}
+	list := []lc{{0, 300}, {3, 520}, {0, 70000}, {1, 140000}, {5, 200000}, {0, 66000}}
+	if cfg.Thorough() || cfg.Search {
+		list = append(list, lc{8, 300000}, lc{0, 1 << 20}, lc{19, 70000}, lc{32, 66000})
+	}
+	for li, c := range list {
+		for _, n := range []int{1, 2, 3} {
+			for k := 0; k < cfg.Scale(2, 6); k++ {
+				s := spec{P: c.p, M: c.q<<c.p + uint64(r.Intn(3)), Key: randKey(r)}
+				for i := 0; i < n; i++ {
+					s.Data = append(s.Data, randItem(r))
+				}
+				vals := gref.Values(s.Key, gref.Modulus(uint64(n), s.M), s.Data)
+				var last, mq uint64
+				for _, v := range vals {
+					if q := (v - last) >> s.P; q > mq {
+						mq = q
+					}
+					last = v
+				}
+				switch {
+				case mq >= 1<<16:
+					rep.Histogram["longrun:q>=2^16"]++
+				case mq >= 1<<8:
+					rep.Histogram["longrun:q>=2^8"]++
+				}
+				checkFilter(s, !cfg.Search && k == 0 && (li < 2 && n == 2 || li == 2 && n == 1), "longrun")
+			}
+		}
+	}
+}
+
 func familyReduction(rng *vh.RNG) {
 	r := rng.Fork("reduction")
 	edge := []uint64{0, 1, 2, 0xffffffff, 0x100000000, 0x100000001, 0xfffffffe00000001, 0xffffffff00000000, 0x8000000000000000, 0xffffffffffffffff, 0x00000001ffffffff, 0xffffffff00000001}
@@ -468,7 +583,12 @@ func familyDeser(rng *vh.RNG) {
 		if (x.p > 32) != (err2 != nil) {
 			rep.Violate("C14:deser:frombytes", "FromBytes accepts/rejects differently from P <= 32", map[string]interface{}{"P": x.p, "impl_class": c2})
 		}
-		_ = g
+		if err2 == nil {
+			gb, _ := g.Bytes()
+			if g.P() != x.p || !bytes.Equal(gb, x.d) {
+				rep.Violate("C14:deser:fields", "FromBytes returned wrong P / bytes", map[string]interface{}{"P": x.p, "bytes": vh.Hex(x.d), "impl_P": g.P(), "filter": vh.Hex(gb)})
+			}
+		}
 		cases.Add(fmt.Sprintf("FromB %d %d %d %s %d", 7, x.p, m, vh.CoqBytes(x.d), c2), map[string]interface{}{"op": "FromBytes", "P": x.p, "impl_class": c2})
 	}
 }
@@ -509,7 +629,8 @@ type bop struct {
 
 func familyBuilder(rng *vh.RNG) {
 	r := rng.Fork("builder")
-	count := cfg.Scale(120, 700)
+	count := cfg.Scale(600, 2500)
+	corrCount := cfg.Scale(120, 700) // chains that also go to the Coq model; the rest are monitor-only
 	for i := 0; i < count; i++ {
 		var key [16]byte
 		copy(key[:], r.Bytes(16))
@@ -643,6 +764,23 @@ func familyBuilder(rng *vh.RNG) {
 				e := randItem(r)
 				if len(refOrder) > 0 && r.Intn(3) == 0 {
 					e = refOrder[r.Intn(len(refOrder))] // duplicate
+				} else if len(refOrder) > 0 && r.Intn(3) == 0 {
+					// a near-duplicate: same first 32 bytes (two outpoints of one transaction), a proper
+					// prefix, or an extension of an earlier entry - all distinct entries
+					o := refOrder[r.Intn(len(refOrder))]
+					switch r.Intn(3) {
+					case 0:
+						e = append(append([]byte{}, o...), r.Bytes(1+r.Intn(4))...)
+					case 1:
+						if len(o) > 1 {
+							e = append([]byte{}, o[:1+r.Intn(len(o)-1)]...)
+						}
+					default:
+						if len(o) >= 36 {
+							e = append([]byte{}, o...)
+							e[32+r.Intn(len(o)-32)] ^= byte(1 + r.Intn(255))
+						}
+					}
 				}
 				coq, js = fmt.Sprintf("OAdd %s", vh.CoqBytes(e)), fmt.Sprintf("AddEntry(%x)", e)
 				do = func() {
@@ -698,7 +836,9 @@ func familyBuilder(rng *vh.RNG) {
 		desc := map[string]interface{}{"op": "builder chain", "start": startJS, "ops": opsJS}
 		if panicked {
 			rep.Histogram["builder:nilmap-panic"]++
-			cases.Add(fmt.Sprintf("Chain %s %s true 0 [] 0 0 0 []", start, vh.CoqList(ops)), desc)
+			if i < corrCount {
+				cases.Add(fmt.Sprintf("Chain %s %s true 0 [] 0 0 0 []", start, vh.CoqList(ops)), desc)
+			}
 			continue
 		}
 		k, kerr := b.Key()
@@ -741,7 +881,9 @@ func familyBuilder(rng *vh.RNG) {
 		if kerr != nil {
 			keyCoq = "[]"
 		}
-		cases.Add(fmt.Sprintf("Chain %s %s false %d %s %d %d %d %s", start, vh.CoqList(ops), kc, keyCoq, cls, n, pp, vh.CoqBytes(fb)), desc)
+		if i < corrCount {
+			cases.Add(fmt.Sprintf("Chain %s %s false %d %s %d %d %d %s", start, vh.CoqList(ops), kc, keyCoq, cls, n, pp, vh.CoqBytes(fb)), desc)
+		}
 	}
 }
 
@@ -859,7 +1001,7 @@ func randScript(r *vh.RNG) []byte {
 
 func familyBlocks(rng *vh.RNG) {
 	r := rng.Fork("blocks")
-	count := cfg.Scale(40, 300)
+	count := cfg.Scale(400, 2000)
 	for i := 0; i < count; i++ {
 		hdr := wire.BlockHeader{Version: int32(r.U32()), Timestamp: time.Unix(int64(r.U32()), 0), Bits: r.U32(), Nonce: r.U32()}
 		copy(hdr.PrevBlock[:], r.Bytes(32))
@@ -876,9 +1018,17 @@ func familyBlocks(rng *vh.RNG) {
 			nin := 1 + r.Intn(3)
 			for k := 0; k < nin; k++ {
 				var op wire.OutPoint
-				if len(pool) > 0 && r.Intn(4) == 0 {
+				switch {
+				case len(pool) > 0 && r.Intn(4) == 0:
 					op = pool[r.Intn(len(pool))] // the same outpoint again (de-duplicated)
-				} else {
+				case len(pool) > 0 && r.Intn(4) == 0:
+					op = pool[r.Intn(len(pool))] // another output of the same transaction: a distinct entry
+					op.Index += 1 + uint32(r.Intn(3))
+					rep.Histogram["block:same-txid-outpoint"]++
+				case r.Intn(8) == 0:
+					op.Index = 0xffffffff // the null outpoint (what a coinbase spends), at any position
+					rep.Histogram[fmt.Sprintf("block:null-outpoint-tx%d", min(t, 1))]++
+				default:
 					copy(op.Hash[:], r.Bytes(32))
 					op.Index = vh.Pick(r, []uint32{0, 1, 2, 0xffffffff, r.U32()})
 				}
@@ -888,8 +1038,27 @@ func familyBlocks(rng *vh.RNG) {
 			nout := r.Intn(4)
 			for k := 0; k < nout; k++ {
 				s := randScript(r)
-				if len(scripts) > 0 && r.Intn(4) == 0 {
+				switch {
+				case len(scripts) > 0 && r.Intn(4) == 0:
 					s = scripts[r.Intn(len(scripts))]
+				case len(scripts) > 0 && r.Intn(6) == 0:
+					// extension / proper prefix of an earlier script: distinct entries
+					o := scripts[r.Intn(len(scripts))]
+					if len(o) > 1 && r.Bool() {
+						s = append([]byte{}, o[:1+r.Intn(len(o)-1)]...)
+					} else {
+						s = append(append([]byte{}, o...), r.Bytes(1+r.Intn(3))...)
+					}
+				case len(pool) > 0 && r.Intn(8) == 0:
+					// a script that is byte-for-byte a serialised outpoint of the block: ONE entry with it
+					o := pool[r.Intn(len(pool))]
+					s = append(append([]byte{}, o.Hash[:]...), 0, 0, 0, 0)
+					binary.LittleEndian.PutUint32(s[32:], o.Index)
+					rep.Histogram["block:script=outpoint"]++
+				case r.Intn(8) == 0:
+					// two long scripts that agree in their first 40 bytes
+					s = append(bytes.Repeat([]byte{0x6a}, 40), r.Bytes(1+r.Intn(3))...)
+					rep.Histogram["block:long-shared-prefix"]++
 				}
 				scripts = append(scripts, s)
 				tx.AddTxOut(wire.NewTxOut(int64(r.Intn(1000)), s, wire.TokenData{}))
@@ -962,8 +1131,9 @@ func runReplay(path string) {
 			familyBuilder(rng)
 		case strings.HasPrefix(doc.Key, "C14:block"), strings.HasPrefix(doc.Key, "C14:hash"):
 			familyBlocks(rng)
-		case strings.HasPrefix(doc.Key, "C14:deser"):
+		case strings.HasPrefix(doc.Key, "C14:deser"), strings.HasPrefix(doc.Key, "C14:ser"), strings.HasPrefix(doc.Key, "C14:roundtrip"):
 			familyDeser(rng)
+			familySerN(rng)
 		default:
 			familyBig(rng)
 		}
@@ -998,6 +1168,8 @@ func main() {
 	} else {
 		familySmall(rng)
 		familyBig(rng)
+		familySerN(rng)
+		familyLongRun(rng)
 		familyReduction(rng)
 		familyBuilder(rng)
 		familyBlocks(rng)
